@@ -363,7 +363,7 @@ func VX_C09_RedialRetry(args []int) {
 // method section holds arbitrary bytes arrives on a live session: whatever the
 // field parsers do with it (including a panic recovered by the read loop), the
 // session ends up working or cleanly disconnected, nobody stays blocked and
-// another session keeps working. args: field(0 meta, 1 status, 2 method), n
+// another session keeps working. args: field(0 meta, 1 status, 2 method, 3 the message-type byte), n
 func VX_C06_SessionFieldBytes(args []int) {
 	field, n := args[0], args[1]
 	p := vxNewPeer()
@@ -379,6 +379,9 @@ func VX_C06_SessionFieldBytes(args []int) {
 		frame = vxFrame(TypeCall, 1, "/ok", []byte("x"), func(m socket.Message) { m.Meta().ParseBytes(ph) })
 	case 1:
 		frame = vxFrame(TypeReply, 1, "/ok", []byte("x"), func(m socket.Message) { m.SetStatus(NewStatus(0, string(ph), "")) })
+	case 3:
+		n = 1
+		frame = vxFrame('A', 1, "/ok", []byte("x")) // message type byte
 	default:
 		frame = vxFrame(TypeCall, 1, string(ph), []byte("x"))
 	}
@@ -405,6 +408,9 @@ func VX_C06_SessionFieldBytes(args []int) {
 	vxAssume(st.OK())
 	conn.feed(frame)
 	vxWaitIdle()
+	if !s.Health() {
+		vxAssert(conn.isClosed(), "a session that is not healthy any more has closed its connection")
+	}
 	if s.Health() {
 		vxCover("c06.field.alive")
 		conn.feed(vxFrame(TypeCall, 2, "/ok", []byte("again")))
@@ -501,4 +507,376 @@ func VX_C20_PreSessionPools(args []int) {
 		PutMessage(h)
 	}
 	vxCover("c20.presession")
+}
+
+func init() { vxRegister("VX_C02_ReplyThenLoss", VX_C02_ReplyThenLoss) }
+
+// VX_C02_ReplyThenLoss: the reply to a pending call and the end of the
+// connection arrive together, so the read loop handles the loss while the
+// reply is still being delivered. The call completes exactly once with the
+// reply; a second pending call completes once with a connection error.
+// args: replyMeta(0/1), chanCap, preemptions(0 = run-to-block schedule)
+func VX_C02_ReplyThenLoss(args []int) {
+	p := vxNewPeer()
+	conn := newVxConn("cli:1", "srv:2")
+	s, st := p.ServeConn(conn)
+	vxAssume(st.OK())
+	vxWaitIdle()
+	var r1, r2 []byte
+	ch1, ch2 := make(chan CallCmd, args[1]), make(chan CallCmd, args[1])
+	c1 := s.AsyncCall("/a", []byte("1"), &r1, ch1)
+	c2 := s.AsyncCall("/b", []byte("2"), &r2, ch2)
+	if args[2] > 0 {
+		vxSched(1, args[2])
+	}
+	var rs []socket.MessageSetting
+	if args[0] == 1 {
+		rs = append(rs, socket.WithAddMeta("k", "v"))
+	}
+	conn.feed(vxFrame(TypeReply, c1.Output().Seq(), "", []byte("R1"), rs...))
+	conn.end()
+	vxWaitIdle()
+	vxAssert(vxDone(c1) && vxDone(c2), "both calls complete once the reply and the loss have been processed")
+	vxAssert(len(ch1) == 1 && len(ch2) == 1, "each call is delivered exactly once to its completion channel")
+	vxAssert(vxBlockedThreads() == 0, "nobody left blocked (a second delivery would block or panic)")
+	if vxDone(c1) {
+		vxAssert(c1.StatusOK() && string(r1) == "R1", "the answered call keeps the peer's reply (not overwritten by the connection error)")
+	}
+	if vxDone(c2) {
+		vxAssert(!c2.StatusOK() && IsConnError(c2.Status()), "the unanswered call fails with a connection error")
+	}
+	select {
+	case <-s.CloseNotify():
+	default:
+		vxFail("[C07] disconnect handling finishes: close notification fired")
+	}
+	vxCover("c02.reply-then-loss")
+}
+
+func init() { vxRegister("VX_C07_DialHooks", VX_C07_DialHooks) }
+
+// VX_C07_DialHooks: Peer.Dial with solver-chosen outcomes of every connection
+// attempt and every dial-hook verdict: a session is returned, healthy and
+// listed iff some attempt both connected and passed the dial hooks; otherwise
+// Dial fails, returns no session and lists nothing. args: redialTimes
+func VX_C07_DialHooks(args []int) {
+	R := args[0]
+	var log []string
+	pl := newVxPlugin("dialhook", &log)
+	p := NewPeer(PeerConfig{RedialTimes: int32(R)}, pl)
+	attempts := 0
+	good := false
+	var conns []*vxConn
+	VXSetDialHook(func(addr string) (net.Conn, error) {
+		attempts++
+		if attempts > R+3 {
+			vxAssume(false)
+		}
+		dialOK, hookOK := vxBool("dialok"), vxBool("hookok")
+		if hookOK {
+			delete(pl.verdict, "PostDial")
+		} else {
+			pl.verdict["PostDial"] = NewStatus(401, "dial hook says no", "")
+		}
+		if !dialOK {
+			return nil, io.ErrClosedPipe
+		}
+		if hookOK {
+			good = true
+		}
+		c := newVxConn("cli:"+string(rune('0'+attempts)), addr)
+		conns = append(conns, c)
+		return c, nil
+	})
+	defer VXSetDialHook(nil)
+	s, st := p.Dial("srv:1")
+	vxWaitIdle()
+	vxAssert(attempts <= R+1, "no more connection attempts than one plus the redial budget")
+	vxAssert(st.OK() == good, "Dial succeeds iff some attempt connected and passed the dial hooks")
+	if st.OK() {
+		vxCover("c07.dial.ok")
+		vxAssert(s != nil && s.Health(), "session returned by a successful Dial is healthy")
+		_, listed := p.GetSession(s.ID())
+		vxAssert(listed && p.CountSession() == 1, "and listed exactly once")
+		vxAssert(len(conns) > 0 && !conns[len(conns)-1].isClosed(), "on the connection whose hooks succeeded")
+	} else {
+		vxCover("c07.dial.failed")
+		vxAssert(s == nil, "a failed Dial returns no session")
+		vxAssert(p.CountSession() == 0, "and lists nothing")
+		for _, c := range conns {
+			vxAssert(c.isClosed(), "connections whose dial hooks failed are closed")
+		}
+	}
+}
+
+func init() { vxRegister("VX_C08_CloseHandlerNeedsTraffic", VX_C08_CloseHandlerNeedsTraffic) }
+
+// VX_C08_CloseHandlerNeedsTraffic: a handler entered before a local Close
+// needs the session once more while Close is waiting for it: it pushes on its
+// own session (variant 0), or waits for the reply to a call it made on the
+// session before the close began (variant 1). The handler finishes, its
+// genuine reply is written and Close returns. args: variant
+func VX_C08_CloseHandlerNeedsTraffic(args []int) {
+	p := vxNewPeer()
+	gate := make(chan struct{})
+	entered := make(chan struct{}, 1)
+	var pushStat *Status
+	var nested CallCmd
+	var nestedRes []byte
+	route := &vxRoute{name: "h"}
+	route.fn = func(ctx *handlerCtx, arg []byte) (interface{}, *Status) {
+		if args[0] == 1 {
+			nested = ctx.Session().AsyncCall("/peer/op", []byte("q"), &nestedRes, make(chan CallCmd, 1))
+		}
+		entered <- struct{}{}
+		<-gate
+		if args[0] == 0 {
+			pushStat = ctx.Session().Push("/note", []byte("n"))
+		} else {
+			<-nested.Done()
+		}
+		return append([]byte("done:"), arg...), nil
+	}
+	vxRouteCall(p, route)
+	conn := newVxConn("srv:1", "cli:2")
+	s, st := p.ServeConn(conn)
+	vxAssume(st.OK())
+	conn.feed(vxFrame(TypeCall, 5, "/h", []byte("x")))
+	vxWaitIdle()
+	vxAssert(len(entered) == 1, "handler entered")
+	closed := make(chan struct{})
+	go func() {
+		s.Close()
+		close(closed)
+	}()
+	vxWaitIdle()
+	vxAssert(!vxClosedChan(closed), "Close waits for the running handler")
+	if args[0] == 1 {
+		// the peer answers the handler's nested call after the close began
+		var seq int32 = -1
+		for _, w := range conn.writes {
+			if m, err := vxParse(w); err == nil && m.Mtype() == TypeCall {
+				seq = m.Seq()
+			}
+		}
+		vxAssert(seq >= 0, "nested call was written")
+		conn.feed(vxFrame(TypeReply, seq, "", []byte("nested-reply")))
+	}
+	close(gate)
+	vxWaitIdle()
+	vxAssert(route.calls == 1, "handler ran once")
+	var rep socket.Message
+	for _, w := range conn.writes {
+		if m, err := vxParse(w); err == nil && m.Mtype() == TypeReply && m.Seq() == 5 {
+			vxAssert(rep == nil, "[C03] answered once")
+			rep = m
+		}
+	}
+	vxAssert(rep != nil, "the call whose handler was entered before Close receives its reply")
+	if rep != nil {
+		vxAssert(rep.StatusOK() && string(vxBodyOf(rep)) == "done:x", "and it is the genuine reply, not a connection error")
+	}
+	if args[0] == 0 {
+		vxAssert(pushStat != nil, "a push attempted during the close returns (fails fast) instead of blocking")
+	} else {
+		vxAssert(nested.StatusOK() && string(nestedRes) == "nested-reply", "a call issued before closing completes with the peer's reply")
+	}
+	vxAssert(vxClosedChan(closed), "Close returns after the handler finished")
+	vxAssert(vxBlockedThreads() == 0, "nobody left blocked")
+	vxCover("c08.needs-traffic")
+}
+
+func init() {
+	vxRegister("VX_C09_ReplyDuringPostWrite", VX_C09_ReplyDuringPostWrite)
+	vxRegister("VX_C10_UnknownAfterSession", VX_C10_UnknownAfterSession)
+}
+
+// VX_C09_ReplyDuringPostWrite: the reply to a call is already readable while
+// the first plugin's PostWriteCall hook is still running: the reply stages of
+// that call still fire only after every plugin's PostWriteCall.
+// args: none
+func VX_C09_ReplyDuringPostWrite(args []int) {
+	var log []string
+	a, b := newVxPlugin("a", &log), newVxPlugin("b", &log)
+	p := vxNewPeer(a, b)
+	conn := newVxConn("cli:1", "srv:2")
+	s, st := p.ServeConn(conn)
+	vxAssume(st.OK())
+	vxWaitIdle()
+	a.onHook = func(stage string) {
+		if stage == "PostWriteCall" {
+			if m, err := vxParse(conn.writes[len(conn.writes)-1]); err == nil {
+				conn.feed(vxFrame(TypeReply, m.Seq(), "", []byte("R")))
+			}
+			vxWaitIdle() // the read loop gets as far as it can with the reply
+		}
+	}
+	var res []byte
+	cmd := s.AsyncCall("/m", []byte("x"), &res, make(chan CallCmd, 1))
+	vxWaitIdle()
+	vxAssert(vxDone(cmd) && cmd.StatusOK() && string(res) == "R", "[C02] call completes with the reply")
+	want := []string{"a:PreWriteCall", "b:PreWriteCall", "a:PostWriteCall", "b:PostWriteCall", "a:PostReadReplyHeader", "b:PostReadReplyHeader", "a:PreReadReplyBody", "b:PreReadReplyBody", "a:PostReadReplyBody", "b:PostReadReplyBody"}
+	var got []string
+	for _, e := range log {
+		for _, w := range want {
+			if e == w {
+				got = append(got, e)
+			}
+		}
+	}
+	vxAssert(len(got) == len(want), "every call-side hook fired exactly once")
+	for k := range want {
+		if k < len(got) {
+			vxAssert(got[k] == want[k], "call-side hooks fire in the documented stage order, then registration order")
+		}
+	}
+	vxCover("c09.reply-during-postwrite")
+}
+
+// VX_C10_UnknownAfterSession: an unknown-call / unknown-push handler installed
+// (or replaced) after a session was established serves unregistered names on
+// that session too. args: none
+func VX_C10_UnknownAfterSession(args []int) {
+	p := vxNewPeer()
+	reg := &vxRoute{name: "known"}
+	vxRouteCall(p, reg)
+	conn := newVxConn("srv:1", "cli:2")
+	_, st := p.ServeConn(conn)
+	vxAssume(st.OK())
+	conn.feed(vxFrame(TypeCall, 1, "/nope", []byte("a")))
+	vxWaitIdle()
+	var hits []string
+	p.SetUnknownCall(func(ctx UnknownCallCtx) (interface{}, *Status) {
+		hits = append(hits, "call1:"+ctx.ServiceMethod())
+		return []byte("u1"), nil
+	})
+	p.SetUnknownPush(func(ctx UnknownPushCtx) *Status {
+		hits = append(hits, "push1:"+ctx.ServiceMethod())
+		return nil
+	})
+	conn.feed(vxFrame(TypeCall, 2, "/nope", []byte("b")))
+	conn.feed(vxFrame(TypePush, 3, "/nope_push", []byte("c")))
+	vxWaitIdle()
+	p.SetUnknownCall(func(ctx UnknownCallCtx) (interface{}, *Status) {
+		hits = append(hits, "call2:"+ctx.ServiceMethod())
+		return []byte("u2"), nil
+	})
+	conn.feed(vxFrame(TypeCall, 4, "/nope", []byte("d")))
+	conn.feed(vxFrame(TypeCall, 5, "/known", []byte("e")))
+	vxWaitIdle()
+	vxAssert(len(hits) == 3 && hits[0] == "call1:/nope" && hits[1] == "push1:/nope_push" && hits[2] == "call2:/nope", "unregistered names reach the unknown-handler that is set at the time, also on sessions established earlier")
+	vxAssert(reg.calls == 1, "registered name reaches its handler only")
+	vxAssert(conn.nWrites() == 4, "[C03] four CALLs answered")
+	if conn.nWrites() == 4 {
+		codes := []int32{CodeNotFound, 0, 0, 0}
+		bodies := []string{"", "u1", "u2", "e"}
+		for k, w := range conn.writes {
+			m, err := vxParse(w)
+			vxAssert(err == nil && m.Status(true).Code() == codes[k], "Not Found before an unknown-handler is set, OK afterwards")
+			if err == nil && k > 0 {
+				vxAssert(string(vxBodyOf(m)) == bodies[k], "reply comes from the handler in force")
+			}
+		}
+	}
+	vxCover("c10.unknown-after-session")
+}
+
+func init() {
+	vxRegister("VX_C20_ContextStatus", VX_C20_ContextStatus)
+	vxRegister("VX_C07_CloseWaitsThenLoss", VX_C07_CloseWaitsThenLoss)
+}
+
+// VX_C20_ContextStatus: contexts that handled failing requests (unknown route,
+// failing handler, failed call's reply) are recycled into the read loop of a
+// session whose calls succeed: every good call still reports OK with its own
+// result. args: failKind(0 unknown route CALL, 1 handler status, 2 unknown PUSH, 3 reply with an error status), rounds
+func VX_C20_ContextStatus(args []int) {
+	vxPoolMode(1)
+	p := vxNewPeer()
+	bad := &vxRoute{name: "bad"}
+	bad.fn = func(ctx *handlerCtx, arg []byte) (interface{}, *Status) { return nil, NewStatus(7001, "handler says no", "") }
+	vxRouteCall(p, bad)
+	conn := newVxConn("peer:1", "peer:2")
+	s, st := p.ServeConn(conn)
+	vxAssume(st.OK())
+	vxWaitIdle()
+	seq := int32(100)
+	for r := 0; r < args[1]; r++ {
+		// a failing use
+		switch args[0] {
+		case 0:
+			conn.feed(vxFrame(TypeCall, seq, "/no/such", []byte("x")))
+		case 1:
+			conn.feed(vxFrame(TypeCall, seq, "/bad", []byte("x")))
+		case 2:
+			conn.feed(vxFrame(TypePush, seq, "/no/such/push", []byte("x")))
+		case 3:
+			var dump []byte
+			fc := s.AsyncCall("/remote/fails", []byte("q"), &dump, make(chan CallCmd, 1))
+			conn.feed(vxFrame(TypeReply, fc.Output().Seq(), "", nil, socket.WithStatus(NewStatus(404, "Not Found", ""))))
+			vxWaitIdle()
+			vxAssert(vxDone(fc) && fc.Status().Code() == 404, "failing call reports its own status")
+		}
+		seq++
+		vxWaitIdle()
+		// good calls afterwards
+		for k := 0; k < 2; k++ {
+			var res []byte
+			c := s.AsyncCall("/remote/ok", []byte("q"), &res, make(chan CallCmd, 1))
+			body := []byte("ok-" + string(rune('a'+r)) + string(rune('0'+k)))
+			conn.feed(vxFrame(TypeReply, c.Output().Seq(), "", body))
+			vxWaitIdle()
+			vxAssert(vxDone(c), "[C02] good call completes")
+			vxAssert(c.StatusOK(), "a call that succeeded reports OK whatever the context that read its reply handled before")
+			vxAssert(string(res) == string(body), "with its own result")
+			vxAssert(s.Health(), "and the session stays up")
+		}
+	}
+	vxCover("c20.ctx-status")
+}
+
+// VX_C07_CloseWaitsThenLoss: a local Close is waiting for a running handler
+// when the remote end drops the connection; then the handler finishes. The
+// socket is closed once, the disconnect hook runs exactly once, the close
+// notification has fired, the session left the index. args: none
+func VX_C07_CloseWaitsThenLoss(args []int) {
+	var log []string
+	pl := newVxPlugin("rec", &log)
+	p := vxNewPeer(pl)
+	gate := make(chan struct{})
+	entered := make(chan struct{}, 1)
+	route := &vxRoute{name: "h"}
+	route.fn = func(ctx *handlerCtx, arg []byte) (interface{}, *Status) {
+		entered <- struct{}{}
+		<-gate
+		return arg, nil
+	}
+	vxRouteCall(p, route)
+	conn := newVxConn("srv:1", "cli:2")
+	s, st := p.ServeConn(conn)
+	vxAssume(st.OK())
+	conn.feed(vxFrame(TypeCall, 5, "/h", []byte("x")))
+	vxWaitIdle()
+	vxAssert(len(entered) == 1, "handler entered")
+	closed := make(chan struct{})
+	go func() {
+		s.Close()
+		close(closed)
+	}()
+	vxWaitIdle()
+	conn.end() // the remote end goes away while Close waits for the handler
+	vxWaitIdle()
+	close(gate)
+	vxWaitIdle()
+	vxAssert(vxClosedChan(closed), "[C08] Close returns after the handler finished")
+	vxAssert(vxBlockedThreads() == 0, "nobody left blocked")
+	vxAssert(!s.Health() && p.CountSession() == 0, "closed session is unhealthy and left the index")
+	vxAssert(conn.closes == 1, "the connection is closed exactly once")
+	vxAssert(vxCount(log, "rec:PostDisconnect") == 1, "the disconnect hook runs exactly once for an established session")
+	select {
+	case <-s.CloseNotify():
+	default:
+		vxFail("close notification fired")
+	}
+	vxCover("c07.closewait-then-loss")
 }
